@@ -110,7 +110,7 @@ func (l c18List) addrOf(class string) []byte {
 	return c18AddrClasses[class]
 }
 
-func runC18(run *Run, seed int64, l c18List, carriers []string, reclaim time.Duration) (out []*c01Result, trace []c18Step) {
+func runC18(run *Run, seed int64, l c18List, carriers []string, reclaim time.Duration, claimInc uint32) (out []*c01Result, trace []c18Step) {
 	nets, err := memberlist.ParseCIDRs(l.CIDRs)
 	if err != nil {
 		return []*c01Result{{"C18/harness/cidr", err.Error()}}, nil
@@ -234,7 +234,7 @@ func runC18(run *Run, seed int64, l c18List, carriers []string, reclaim time.Dur
 		}
 		ok := oracle.allowed(addr)
 		// the incarnation is higher than what is held, so only the allowlist can stop the claim
-		step := c18Step{c.node, c.class, 9, c.carrier, c.prior}
+		step := c18Step{c.node, c.class, claimInc, c.carrier, c.prior}
 		trace = append(trace, step)
 		m := rig.V.ML()
 		rb := m.VerifRecordOf(c.node)
@@ -242,24 +242,24 @@ func runC18(run *Run, seed int64, l c18List, carriers []string, reclaim time.Dur
 		srcDisallowed := false
 		switch c.carrier {
 		case "packet", "compound", "compress":
-			sendAlive(x, x.EP.Addr, c.carrier, c.node, addr, 9)
+			sendAlive(x, x.EP.Addr, c.carrier, c.node, addr, claimInc)
 		case "packet-badsrc":
 			if o == nil {
 				continue
 			}
 			srcDisallowed = true
-			sendAlive(o, o.EP.Addr, "packet", c.node, addr, 9)
+			sendAlive(o, o.EP.Addr, "packet", c.node, addr, claimInc)
 		case "compound-badsrc":
 			if o == nil {
 				continue
 			}
 			srcDisallowed = true
-			sendAlive(o, o.EP.Addr, "compound", c.node, addr, 9)
+			sendAlive(o, o.EP.Addr, "compound", c.node, addr, claimInc)
 		case "packet-garbagesrc":
 			srcDisallowed = true
-			sendAlive(x, "not-an-address", "packet", c.node, addr, 9)
+			sendAlive(x, "not-an-address", "packet", c.node, addr, claimInc)
 		case "pp", "ppjoin":
-			entry := WPushNodeState{Name: c.node, Addr: addr, Port: 7946, Meta: []byte("m"), Incarnation: 9, State: SAlive, Vsn: DefaultVsn()}
+			entry := WPushNodeState{Name: c.node, Addr: addr, Port: 7946, Meta: []byte("m"), Incarnation: claimInc, State: SAlive, Vsn: DefaultVsn()}
 			if _, _, err := x.PushPull(c.carrier == "ppjoin", []WPushNodeState{x.Self(1), entry}, nil); err != nil {
 				fail("harness/pp", "%v", err)
 				return
@@ -268,7 +268,7 @@ func runC18(run *Run, seed int64, l c18List, carriers []string, reclaim time.Dur
 			if o == nil {
 				continue
 			}
-			entry := WPushNodeState{Name: c.node, Addr: addr, Port: 7946, Meta: []byte("m"), Incarnation: 9, State: SAlive, Vsn: DefaultVsn()}
+			entry := WPushNodeState{Name: c.node, Addr: addr, Port: 7946, Meta: []byte("m"), Incarnation: claimInc, State: SAlive, Vsn: DefaultVsn()}
 			// the reporter itself sits at a disallowed address: neither it nor a disallowed entry may be admitted
 			if _, _, err := o.PushPull(true, []WPushNodeState{o.Self(1), entry}, nil); err != nil {
 				fail("harness/pp", "%v", err)
@@ -322,7 +322,7 @@ func runC18(run *Run, seed int64, l c18List, carriers []string, reclaim time.Dur
 			}
 		} else {
 			// positive control: an allowed address from an allowed source must be able to get in
-			if ra != nil && ra.Incarnation == 9 {
+			if ra != nil && ra.Incarnation == claimInc {
 				run.Count("positive_admissions", 1)
 			}
 		}
@@ -343,38 +343,48 @@ func TestC18(t *testing.T) {
 	defer run.Finish()
 	run.Assume("an empty allowlist means allow-all in this code base (pinned by existing tests); the oracle is vacuous there and such configurations are not generated", "the node's own address is inside the allowlist")
 	carriersA := []string{"packet", "compound", "compress", "pp", "ppjoin", "packet-badsrc", "compound-badsrc", "packet-garbagesrc", "ppjoin-badsrc"}
-	for li, l := range c18Lists {
-		id := "list/" + l.Name
-		if !run.Replaying() {
-			for _, class := range []string{"out4", "mapped-out", "out6", "nil", "len0", "len3", "len5", "len15", "len17"} {
-				for _, prior := range []string{"absent", "alive", "suspect", "dead-old", "left"} {
-					for _, car := range []string{"packet", "compound", "compress", "pp", "ppjoin"} {
-						if l.Name == "v4-24" {
-							run.Require(fmt.Sprintf("%s|%s(disallowed)|%s|%s", l.Name, class, prior, car))
+	type variant struct {
+		inc     uint32
+		reclaim time.Duration
+	}
+	variants := []variant{{9, 5 * time.Second}, {3, 5 * time.Second}}
+	if run.Thorough() {
+		variants = append(variants, variant{5, 5 * time.Second}, variant{9, 0}, variant{3, 0}, variant{4294967294, 5 * time.Second})
+	}
+	for vi, vr := range variants {
+		for li, l := range c18Lists {
+			if vi > 0 && li > 0 && !run.Thorough() {
+				continue // quick: the lower-incarnation (reclaim) variant on the first allowlist only
+			}
+			id := fmt.Sprintf("list/%s/inc%d/reclaim%v", l.Name, vr.inc, vr.reclaim)
+			if !run.Replaying() {
+				for _, class := range []string{"out4", "mapped-out", "out6", "nil", "len0", "len3", "len5", "len15", "len17"} {
+					for _, prior := range []string{"absent", "alive", "suspect", "dead-old", "left"} {
+						for _, car := range []string{"packet", "compound", "compress", "pp", "ppjoin"} {
+							if l.Name == "v4-24" && vi == 0 {
+								run.Require(fmt.Sprintf("%s|%s(disallowed)|%s|%s", l.Name, class, prior, car))
+							}
 						}
 					}
 				}
 			}
+			if !run.Mine(li+vi*5) || !run.Want(id) {
+				continue
+			}
+			run.Journal(id, "")
+			var res []*c01Result
+			var trace []c18Step
+			err := Bubble(t, func() { res, trace = runC18(run, run.Seed()+int64(li)+int64(vi)*100, l, carriersA, vr.reclaim, vr.inc) })
+			if err != nil {
+				res = append(res, &c01Result{"C18/bubble", err.Error()})
+			}
+			if len(trace) > 3 && li == 0 {
+				run.Sample(map[string]any{"list": l.CIDRs, "steps": trace[:3]})
+			}
+			for _, r := range res {
+				run.Violation(id, r.Key, r.What, map[string]any{"list": l.CIDRs, "steps_done": len(trace)})
+			}
 		}
-		if !run.Mine(li) || !run.Want(id) {
-			continue
-		}
-		run.Journal(id, "")
-		var res []*c01Result
-		var trace []c18Step
-		err := Bubble(t, func() { res, trace = runC18(run, run.Seed()+int64(li), l, carriersA, 5*time.Second) })
-		if err != nil {
-			res = append(res, &c01Result{"C18/bubble", err.Error()})
-		}
-		if len(trace) > 3 && li == 0 {
-			run.Sample(map[string]any{"list": l.CIDRs, "steps": trace[:3]})
-		}
-		for _, r := range res {
-			run.Violation(id, r.Key, r.What, map[string]any{"list": l.CIDRs, "steps_done": len(trace)})
-		}
-	}
-	if !run.Replaying() {
-		run.Require()
 	}
 	run.Complete()
 	if run.Violations() > 0 {
